@@ -138,6 +138,11 @@ enum Op {
     Enqueue(Msg),
     Send(Msg),
     Flush,
+    /// `chain_call(first).append(..)…send()`; every link is a call (or a refused value). A refused
+    /// link ends the chain there: the links accepted before it stay enqueued, nothing is sent.
+    Chain(Vec<Msg>),
+    /// `Connection::split()` followed by `Connection::join()`.
+    Rejoin,
 }
 
 /// Steering model of zlink's write buffer (used to aim sizes, never as an oracle).
@@ -205,6 +210,9 @@ fn gen_history(t: &mut Tape) -> Vec<Op> {
     let mut big_left = if scale >= 62 { 3 } else { 0 };
     let n = if scale >= 56 && scale < 60 { 40 + t.draw(360) } else { 1 + t.draw(30) };
     let bad_rate = [0usize, 1, 3][t.draw(3)];
+    // half of the histories stay with enqueue/send/flush on the connection itself; the others also
+    // build chains, go through `write_mut()` and take the connection apart and together again
+    let api_mix = t.draw(2) == 1;
     let mut st = Steer { pos: 0, cap: 256 };
     let mut ops = Vec::new();
     for _ in 0..n {
@@ -220,12 +228,45 @@ fn gen_history(t: &mut Tape) -> Vec<Op> {
             let m = gen_good(t);
             aim(t, m, &st, &mut big_left)
         };
-        let op = match t.draw(5) {
+        let op = match t.draw(if api_mix { 8 } else { 5 }) {
             0 | 1 => Op::Enqueue(msg),
             2 | 3 => Op::Send(msg),
-            _ => Op::Flush,
+            4 => Op::Flush,
+            5 => Op::Rejoin,
+            _ => {
+                // a chain of 1..4 links; the aimed message is one of them, the others are small calls
+                let k = 1 + t.draw(4);
+                let at = t.draw(k);
+                let mut links = Vec::new();
+                for j in 0..k {
+                    if j == at {
+                        links.push(match msg.clone() {
+                            m @ (Msg::Call { .. } | Msg::BadKey { .. } | Msg::FailAfter { .. }) => m,
+                            other => Msg::Call { len: 0, n: 1, oneway: false, more: false }.with_wire_len(other.wire_len()),
+                        });
+                    } else if t.chance(bad_rate, 24) {
+                        links.push(Msg::FailAfter { k: t.draw(4), len: t.draw(40) });
+                    } else {
+                        links.push(Msg::Call { len: t.draw(30), n: t.draw(1000) as u32, oneway: t.draw(3) == 2, more: t.draw(4) == 3 });
+                    }
+                }
+                Op::Chain(links)
+            }
         };
         match &op {
+            Op::Chain(links) => {
+                let mut all = true;
+                for m in links {
+                    if m.is_bad() {
+                        all = false;
+                        break;
+                    }
+                    st.enqueue(m.wire_len());
+                }
+                if all {
+                    st.pos = 0;
+                }
+            }
             Op::Enqueue(m) if !m.is_bad() => st.enqueue(m.wire_len()),
             Op::Send(m) if !m.is_bad() => {
                 st.enqueue(m.wire_len());
@@ -278,10 +319,12 @@ async fn do_enqueue_or_send(conn: &mut Connection<crate::world::SimSocket>, m: &
     match m {
         Msg::Call { len, n, oneway, more } => {
             let c = Call::new(MethOut::Echo { text: padstr(*len, *n), n: *n }).set_oneway(*oneway).set_more(*more);
-            if send {
-                conn.send_call(&c).await
-            } else {
-                conn.enqueue_call(&c)
+            // odd ids go through the write half, even ones through the connection's own methods
+            match (send, n % 2 == 1) {
+                (true, false) => conn.send_call(&c).await,
+                (true, true) => conn.write_mut().send_call(&c).await,
+                (false, false) => conn.enqueue_call(&c),
+                (false, true) => conn.write_mut().enqueue_call(&c),
             }
         }
         Msg::Reply { len, id, continues } => {
@@ -311,11 +354,61 @@ async fn do_enqueue_or_send(conn: &mut Connection<crate::world::SimSocket>, m: &
     }
 }
 
+type OutChain<'c> = zlink_core::connection::Chain<'c, crate::world::SimSocket, Value, Value>;
+
+fn chain_start<'c>(conn: &'c mut Connection<crate::world::SimSocket>, m: &Msg) -> zlink_core::Result<OutChain<'c>> {
+    match m {
+        Msg::Call { len, n, oneway, more } => conn.chain_call(&Call::new(MethOut::Echo { text: padstr(*len, *n), n: *n }).set_oneway(*oneway).set_more(*more)),
+        Msg::BadKey { len } => {
+            let mut m = BTreeMap::new();
+            m.insert((1, 2), 3);
+            conn.chain_call(&Call::new(BadKey { lead: padstr(*len, 1), m }))
+        }
+        Msg::FailAfter { k, len } => conn.chain_call(&Call::new(FailAfter { k: *k, pad: padstr(*len, 2) })),
+        _ => unreachable!("chains are made of calls"),
+    }
+}
+
+fn chain_append<'c>(chain: OutChain<'c>, m: &Msg) -> zlink_core::Result<OutChain<'c>> {
+    match m {
+        Msg::Call { len, n, oneway, more } => chain.append(&Call::new(MethOut::Echo { text: padstr(*len, *n), n: *n }).set_oneway(*oneway).set_more(*more)),
+        Msg::BadKey { len } => {
+            let mut m = BTreeMap::new();
+            m.insert((1, 2), 3);
+            chain.append(&Call::new(BadKey { lead: padstr(*len, 1), m }))
+        }
+        Msg::FailAfter { k, len } => chain.append(&Call::new(FailAfter { k: *k, pad: padstr(*len, 2) })),
+        _ => unreachable!("chains are made of calls"),
+    }
+}
+
+/// Build the chain link by link and send it. Returns the outcome (None = the send was abandoned)
+/// and how many links were accepted before a refusal ended the chain.
+async fn do_chain(world: &World, conn: &mut Connection<crate::world::SimSocket>, links: &[Msg]) -> (Option<zlink_core::Result<()>>, usize) {
+    let mut chain = match chain_start(conn, &links[0]) {
+        Ok(c) => c,
+        Err(e) => return (Some(Err(e)), 0),
+    };
+    let mut accepted = 1;
+    for m in &links[1..] {
+        chain = match chain_append(chain, m) {
+            Ok(c) => c,
+            Err(e) => return (Some(Err(e)), accepted),
+        };
+        accepted += 1;
+    }
+    // the reply stream is not polled (nobody answers in this world); dropping it is legal
+    let r = cancellable(world, chain.send()).await;
+    (r.map(|x| x.map(|_stream| ())), accepted)
+}
+
 fn describe(ops: &[Op]) -> Value {
     json!(ops
         .iter()
         .map(|o| match o {
             Op::Flush => "flush".to_string(),
+            Op::Rejoin => "split + join".to_string(),
+            Op::Chain(l) => format!("chain [{}] + send", l.iter().map(short).collect::<Vec<_>>().join(", ")),
             Op::Enqueue(m) => format!("enqueue {}", short(m)),
             Op::Send(m) => format!("send {}", short(m)),
         })
@@ -389,8 +482,28 @@ impl Prop for Outbound {
                 let mut log_seen = 0usize;
                 let mut writes_seen = 0usize;
                 for (i, op) in ops2.iter().enumerate() {
+                    let mut chain_accepted: Vec<Value> = Vec::new();
                     let (res, flushes, bad, msg) = match op {
-                        Op::Flush => (cancellable(&world2, conn.flush()).await, true, false, None),
+                        Op::Flush => {
+                            if i % 2 == 1 {
+                                (cancellable(&world2, conn.write_mut().flush()).await, true, false, None)
+                            } else {
+                                (cancellable(&world2, conn.flush()).await, true, false, None)
+                            }
+                        }
+                        Op::Rejoin => {
+                            let (r, w) = conn.split();
+                            conn = Connection::join(r, w);
+                            world2.borrow_mut().stat("api.split_and_join_between_operations");
+                            (Some(Ok(())), false, false, None)
+                        }
+                        Op::Chain(links) => {
+                            let (r, accepted) = do_chain(&world2, &mut conn, links).await;
+                            chain_accepted = links[..accepted].iter().map(|m| m.expected()).collect();
+                            let refused = accepted < links.len();
+                            world2.borrow_mut().stat(if refused { "api.chain_ended_by_refused_link" } else { "api.chain_built_and_sent" });
+                            (r, !refused, refused, None)
+                        }
                         Op::Enqueue(m) => match m {
                             // only calls can be enqueued through the public API; other message
                             // kinds are sent
@@ -401,10 +514,12 @@ impl Prop for Outbound {
                         },
                         Op::Send(m) => (cancellable(&world2, do_enqueue_or_send(&mut conn, m, true)).await, true, m.is_bad(), Some(m)),
                     };
+                    // links of a chain that were accepted are enqueued whatever happens to the rest
+                    pending.extend(chain_accepted);
                     let fail = |class: &str, msg: String| {
                         let mut v = verdict2.borrow_mut();
                         if v.is_none() {
-                            *v = Some((format!("C02/{class}"), format!("op {i} ({}): {msg}", match op { Op::Flush => "flush".to_string(), Op::Enqueue(m) => format!("enqueue {}", short(m)), Op::Send(m) => format!("send {}", short(m)) })));
+                            *v = Some((format!("C02/{class}"), format!("op {i} ({}): {msg}", match op { Op::Flush => "flush".to_string(), Op::Rejoin => "split + join".to_string(), Op::Chain(l) => format!("chain of {} links + send", l.len()), Op::Enqueue(m) => format!("enqueue {}", short(m)), Op::Send(m) => format!("send {}", short(m)) })));
                         }
                     };
                     // --- model step
